@@ -72,9 +72,9 @@ package dtlshandshake
 //@ ensures silence-constant-without-backoff: result0 == StateSending && !called("Parse") && s.cfg.DisableRetransmitBackoff ==> s.retransmitInterval == min(old(s.retransmitInterval), 60000000000)
 //@ ensures timer-without-resend-keeps-interval: result0 == StateWaiting ==> called("handleRetransmitTimeout") && !old(s.retransmit)
 //@ ensures no-event-no-reset: result0 == StateWaiting && !called("Parse") ==> s.retransmitInterval == old(s.retransmitInterval)
-// (Re-add once event counters are bounded by the engine - today ncalls can wrap after a loop havoc:
-//   ensures retransmitted-event-keeps-interval: ncalls("recv:Conn.RecvHandshake") == 1 && lastEvent().IsRetransmit && !called("handleRetransmitTimeout") && !called("handleWaitCancellation") ==> s.retransmitInterval == old(s.retransmitInterval)
-//  with the loop invariant  ncalls == 0 ==> interval unchanged,  ncalls == 1 ==> first-event law.)
+// A retransmitted flight from the peer must not restart the backoff (pion/dtls#758): as long as every received event
+// was a retransmission, the interval is the one the step started with.
+//@ ensures retransmitted-events-keep-interval: always("recv:Conn.RecvHandshake", "lastEvent().IsRetransmit") && !called("handleRetransmitTimeout") && !called("handleWaitCancellation") ==> s.retransmitInterval == old(s.retransmitInterval)
 //@ ensures interval-changes-only-on-event: !called("recv:Conn.RecvHandshake") && !called("handleRetransmitTimeout") && !called("handleWaitCancellation") ==> s.retransmitInterval == old(s.retransmitInterval)
 //@ ensures new-data-restores-initial: called("recv:Conn.RecvHandshake") && !lastEvent().IsRetransmit && !called("handleRetransmitTimeout") && !called("handleWaitCancellation") ==> s.retransmitInterval == s.cfg.InitialRetransmitInterval
 //@ ensures sends-nothing-itself: !called("Conn.WritePackets")
@@ -86,6 +86,7 @@ package dtlshandshake
 //@ loop #1: no-event-no-reset: !called("Parse") ==> s.retransmitInterval == old(s.retransmitInterval)
 //@ loop #1: no-event-yet: !called("recv:Conn.RecvHandshake") ==> s.retransmitInterval == old(s.retransmitInterval) && !called("Parse")
 //@ loop #1: last-event-law: called("recv:Conn.RecvHandshake") && !lastEvent().IsRetransmit ==> s.retransmitInterval == s.cfg.InitialRetransmitInterval
+//@ loop #1: only-retransmits-keep-interval: always("recv:Conn.RecvHandshake", "lastEvent().IsRetransmit") ==> s.retransmitInterval == old(s.retransmitInterval)
 //@ loop #1: timer-not-yet: !called("handleRetransmitTimeout") && !called("handleWaitCancellation") && !called("Conn.WritePackets")
 //@ end
 
